@@ -44,6 +44,9 @@ func idOfScalarCall(v ssa.Value) ssa.Value {
 }
 
 func runC02(c *Ctx, r *Run) {
+	r.Rule("SIB-2", "the two roles of the Doerner key generation update their same-named state fields under the same conditions")
+	checkSiblingStores(c, r, "SIB-2", "protocols/doerner/keygen", "round2R", "round2S", "StoreMessage")
+	r.Require("SIB-2", 2)
 	checkResultsUsed(c, r, "USE-1", 100)
 	r.Rule("DEG-1", "dealing polynomials have degree = session threshold; NewPolynomial allocates degree+1 coefficients and samples coefficients 1..degree")
 	r.Rule("DEG-2", "receivers refuse committed polynomials whose degree differs from the session threshold; Exponent.Degree counts the omitted constant")
@@ -885,4 +888,79 @@ func storesTo(a *ssa.Alloc) []ssa.Value {
 		}
 	}
 	return out
+}
+
+// checkSiblingStores: SIB-2. The two roles of a two-party round (round2R / round2S of the Doerner key generation) update
+// the same-named fields of their state under the same conditions: a share update that one side makes unconditionally
+// and the other only outside a refresh leaves the two shares of one key out of step.
+func checkSiblingStores(c *Ctx, r *Run, rule, rel, typA, typB, method string) {
+	fa, fb := c.LookupMethod(rel, typA, method), c.LookupMethod(rel, typB, method)
+	if fa == nil || fb == nil {
+		r.Unresolved(rule, rel+"."+typA+"/"+typB+"."+method)
+		return
+	}
+	stores := func(fn *ssa.Function) map[string][]string {
+		out := map[string][]string{}
+		for _, f := range regionOf(fn) {
+			f := f
+			allInstrs(f, func(in ssa.Instruction) {
+				st, ok := in.(*ssa.Store)
+				if !ok {
+					return
+				}
+				fad, ok := st.Addr.(*ssa.FieldAddr)
+				if !ok || len(f.Params) == 0 || f.Signature.Recv() == nil {
+					return
+				}
+				// a field of the round's own state (through the embedded earlier rounds)
+				ls := paramFields(f, fad)
+				if len(ls) != 1 || !strings.HasPrefix(ls[0], "recv.") || strings.ContainsAny(ls[0][5:], ".[(") {
+					return
+				}
+				name := ls[0][5:]
+				// the tests that decide between making and skipping the update (an error exit decides nothing: the
+				// round fails as a whole)
+				var conds []string
+				for _, p := range f.Blocks {
+					iff, isIf := p.Instrs[len(p.Instrs)-1].(*ssa.If)
+					if !isIf || p == st.Block() {
+						continue
+					}
+					if blockRejectsFrom(p, p.Succs[0]) || blockRejectsFrom(p, p.Succs[1]) {
+						continue
+					}
+					r0 := p.Succs[0] == st.Block() || blockReaches(p.Succs[0], st.Block())
+					r1 := p.Succs[1] == st.Block() || blockReaches(p.Succs[1], st.Block())
+					if r0 != r1 && !blockInLoop(p) {
+						conds = append(conds, deciderOf(iff.Cond)+"("+strings.Join(guardFields(f, iff.Cond), ",")+")")
+					}
+				}
+				sort.Strings(conds)
+				out[name] = append(out[name], strings.Join(conds, " & "))
+			})
+		}
+		for k := range out {
+			sort.Strings(out[k])
+		}
+		return out
+	}
+	sa, sb := stores(fa), stores(fb)
+	r.Analysed(c.FuncName(fa))
+	r.Analysed(c.FuncName(fb))
+	var names []string
+	for k := range sa {
+		if _, both := sb[k]; both {
+			names = append(names, k)
+		}
+	}
+	sort.Strings(names)
+	for _, k := range names {
+		a, b := strings.Join(sa[k], " | "), strings.Join(sb[k], " | ")
+		r.Check(rule, rel+"."+typA+"/"+typB+"."+method+"|field "+k, c.Pos(fb.Pos()), a == b,
+			"both roles update "+k+" under the same conditions ["+a+"]",
+			typA+" updates "+k+" under ["+a+"], "+typB+" under ["+b+"]: in the runs where only one of them makes the update the two parties' shares no longer belong to one key")
+	}
+	if len(names) == 0 {
+		r.Unresolved(rule, "common state fields of "+typA+"/"+typB)
+	}
 }
